@@ -488,8 +488,9 @@ def build_const_programs(tier):
     return out
 
 
-def render_const(chs):
-    """one crate; every (chain, input) is its own const item; main compares with std at run time"""
+def render_const(chs, skip=frozenset()):
+    """one crate; every (chain, input) is its own const item; main compares with std at run time.
+    Chains whose index is in `skip` (already rejected by rustc) are left out without touching konst at all."""
     lines = ["#![allow(unused, clippy::all, long_running_const_eval)]", "mod support;", "use support::*;", ""]
     for i, xs in enumerate(CONST_INPUTS):
         lines.append(f"const IN{i}: [u16; {len(xs)}] = {xs};")
@@ -503,6 +504,8 @@ def render_const(chs):
             ksrc = {"slice": f"&IN{ii}", "range": f"A{ii}..B{ii}", "range_inc": f"A{ii}..=B{ii}"}[c.src_name]
             kx = ", ".join([ksrc] + [t.replace("&ZS", "&ZS_C") for t in c.k])
             start = len(lines) + 1
+            if ci in skip:
+                continue
             lines.append(f"const K{ci}_{ii}: &[{tyname(c.shape)}] = &konst::iter::collect_const!({tyname(c.shape)} => {kx});")
             linemap[(ci, ii)] = start
             items.append((ci, ii))
@@ -510,6 +513,8 @@ def render_const(chs):
     lines.append("    std::panic::set_hook(Box::new(|_| {}));")
     for ci, c in enumerate(chs):
         for ii in range(len(CONST_INPUTS)):
+            if ci in skip:
+                continue
             sub = lambda t: t.replace("xs.iter()", f"IN{ii}.iter()").replace("(a..b)", f"(A{ii}..B{ii})").replace("(a..=b)", f"(A{ii}..=B{ii})")
             s = sub(c.s)
             # h: the reverse-hoisted model (finding F7), only consulted when the chain is F7-shaped and disagrees with std
@@ -529,18 +534,19 @@ def const_family(ws_tag, chains, shard=120):
     cur = list(chains)
     nshards = max(1, (len(chains) + shard - 1) // shard)
 
-    def render_all(chs):
+    def render_all(chs, bad=frozenset()):
         crates, lm = {}, {}
         for si in range(nshards):
             sub = chs[si * shard:(si + 1) * shard]
-            cr, l = render_const(sub)
+            cr, l = render_const(sub, skip={ci - si * shard for ci in bad if si * shard <= ci < (si + 1) * shard})
             crates[f"kc_{si}"] = cr["c10_const"]
             for (ci, ii), ln in l.items():
                 lm[(f"kc_{si}", ln)] = (si * shard + ci, ii)
         return crates, lm
 
+    bad_ci = set()
     for _round in range(6):
-        crates, clinemap = render_all(cur)
+        crates, clinemap = render_all(chains, bad_ci)
         ws = e3.write_workspace(ws_tag, crates)
         errors, seen, rc, err = e3.check_json(ws)
         before = len(const_rejected)
@@ -555,9 +561,11 @@ def const_family(ws_tag, chains, shard=120):
         if mach or len(const_rejected) == before:
             break
         bad_ci = {ci for (ci, ii) in const_rejected}
-        cur = [c if i not in bad_ci else ok_chain for i, c in enumerate(chains)]
     if mach:
         return viol, 0, mach, 0
+    bad_ci = {ci for (ci, ii) in const_rejected}
+    crates, clinemap = render_all(chains, bad_ci)
+    ws = e3.write_workspace(ws_tag, crates)
     rcode, out, errtxt = e3.cargo(ws, ["build", "-q"])
     if rcode != 0:
         return viol, 0, [f"generated {ws_tag} workspace does not build after removing rejected items: " + errtxt[-1500:]], 0
@@ -566,7 +574,7 @@ def const_family(ws_tag, chains, shard=120):
         rc3, o3, e3txt = e3.run_bin(ws, f"kc_{si}")
         if rc3 != 0:
             return viol, 0, [f"runner kc_{si} of {ws_tag} failed: {e3txt[-500:]}"], 0
-        for l in o3.splitlines():
+        for l in o3.split("\n"):
             if l.startswith("{"):
                 r = json.loads(l)
                 r["c"] += si * shard
@@ -654,9 +662,8 @@ def run(tier, seed, drv):
       progs_r = [p for p in progs if p["id"] not in rejected]
       crates, linemap = render(progs_r)
       bad_ci = {ci for (ci, ii) in const_rejected}
-      cch_r = [c for i, c in enumerate(cchains) if i not in bad_ci]
-      # keep const indices stable for attribution: rejected chains are replaced by a trivially valid one
-      ccrates, clinemap = render_const([c if i not in bad_ci else cchains_ok for i, c in enumerate(cchains)])
+      # const indices stay stable for attribution: rejected chains are left out of the rendering, not renumbered
+      ccrates, clinemap = render_const(cchains, skip=bad_ci)
       crates.update(ccrates)
       ws = e3.write_workspace("C10", crates)
     if rep["machinery_errors"]:
@@ -670,8 +677,7 @@ def run(tier, seed, drv):
         progs2 = [p for p in progs if p["id"] not in rejected]
         crates, linemap = render(progs2)
         bad_ci = {ci for (ci, ii) in const_rejected}
-        cch2 = [c if i not in bad_ci else cchains_ok for i, c in enumerate(cchains)]
-        ccrates, _ = render_const(cch2)
+        ccrates, _ = render_const(cchains, skip=bad_ci)
         crates.update(ccrates)
         ws = e3.write_workspace("C10", crates)
     rcode, out, errtxt = e3.cargo(ws, ["build", "-q"])
@@ -690,12 +696,12 @@ def run(tier, seed, drv):
             if rc2 != 0:
                 rep["machinery_errors"].append(f"runner c10_{si} failed: rc={rc2} {e[-500:]}")
                 continue
-            for line in o.splitlines():
+            for line in o.split("\n"):
                 if line.startswith("{"):
                     r = json.loads(line)
                     results[r["id"]] = r
     rc3, o3, e3txt = e3.run_bin(ws, "c10_const")
-    const_results = [json.loads(l) for l in o3.splitlines() if l.startswith("{")] if rc3 == 0 else []
+    const_results = [json.loads(l) for l in o3.split("\n") if l.startswith("{")] if rc3 == 0 else []
     if rc3 != 0:
         rep["machinery_errors"].append(f"runner c10_const failed: {e3txt[-500:]}")
     if rep["machinery_errors"]:
